@@ -170,6 +170,9 @@ def is_text_like(var):
     return any(h in var.name for h in _TEXT_HINTS)
 
 
+STATS = {"bool_bytes": 0}
+
+
 def gen_value(rng, var, opts):
     """Return a value spec for one template variable, in the variable's wire domain."""
     t = var.type
@@ -177,6 +180,10 @@ def gen_value(rng, var, opts):
         lo, hi = INT_RANGES[t]
         return ["i", rand_int(rng, lo, hi)]
     if t == MsgType.MVT_BOOL:
+        # a BOOL is one byte on the wire; callers that ask for it (round 11) also get the bytes that are neither 0 nor 1
+        if opts.get("bool_bytes") and rng.random() < 0.25:
+            STATS["bool_bytes"] += 1
+            return ["i", rng.choice([2, 255, rng.randint(2, 255)])]
         return ["i", rng.randint(0, 1)]
     if t == MsgType.MVT_F32:
         return ["f", rand_f32(rng)]
